@@ -263,6 +263,16 @@ func Nodes(t *abs.Tree) []abs.Path {
 // WithAncestors returns s plus the ancestors of `at` (containers, list nodes,
 // entries with their key leaves) so that a store can be built from it.
 func WithAncestors(ds abs.Schema, s *abs.Tree, at abs.Path) *abs.Tree {
+	return withAncestors(ds, s, at, true)
+}
+
+// AncestorsNoKeys is WithAncestors without the key leaves of ancestor entries (for
+// map-backed capturing stores, where the map key identifies the entry).
+func AncestorsNoKeys(ds abs.Schema, s *abs.Tree, at abs.Path) *abs.Tree {
+	return withAncestors(ds, s, at, false)
+}
+
+func withAncestors(ds abs.Schema, s *abs.Tree, at abs.Path, keyLeaves bool) *abs.Tree {
 	out := s.Clone()
 	for i := 1; i <= len(at); i++ {
 		p := at[:i]
@@ -272,6 +282,9 @@ func WithAncestors(ds abs.Schema, s *abs.Tree, at abs.Path) *abs.Tree {
 		if p.IsEntry() {
 			n := ds.Node(p.SPath())
 			for j, kn := range n.Keys {
+				if !keyLeaves {
+					break
+				}
 				kp := abs.Path(append(abs.Path{}, p...)).Child(abs.S(kn))
 				if _, ok := out.LeafAt(kp); !ok {
 					out.Leaf = append(out.Leaf, abs.LeafItem{P: kp, V: []string{p[len(p)-1].K[j]}})
